@@ -43,7 +43,10 @@ FAMILIES = {
                   FaultOps=["get", "update", "terminate"], MaxFaults=1, cfg=dict(min=0, max=2), AsgMax0=3, MaxPend=2),
     # force removal of several nodes (a terminate call failing midway) followed by a scale-up in the same scan
     "forceup": fam(EnvOn=["PodArrive", "PodFinish", "ExtForce", "ExtTaint", "Restart"], FaultOps=["terminate", "update"], MaxFaults=1,
-                   cfg=dict(min=0, max=4), AsgMax0=5, MaxPend=3, KC=1, KM=1, InitNodes=2, NodeIds=["a1", "a2", "a3"]),
+                   cfg=dict(min=0, max=4), AsgMax0=5, MaxPend=3, KC=1, KM=1, InitNodes=2, NodeIds=["a1", "a2", "a3"], emit=2),
+    # two removal batches in one scan (force reaper, then grace reaper) with a terminate call failing midway, near the ASG minimum
+    "batches": fam(EnvOn=["ExtForce", "ExtTaint"], FaultOps=["terminate", "delete"], MaxFaults=1, TaintKinds=["zero"],
+                   cfg=dict(min=0, max=4), AsgMin0=2, AsgMax0=5, MaxPend=0, KC=1, KM=1, InitNodes=4, NodeIds=["a1", "a2", "a3", "a4"], emit=1),
     # an operator edits the ASG bounds of a group whose min / max are configured (not discovered)
     "asgedit": fam(EnvOn=["Tick", "PodArrive", "PodFinish", "AsgEdit", "CloudLaunch", "Register"],
                    cfg=dict(min=0, max=2), AsgMin0=0, AsgMax0=3, AsgBoundsSet=[[0, 1], [0, 2], [0, 3], [0, 4]], MaxPend=3, InitNodes=1),
